@@ -421,50 +421,38 @@ example : (⟨⟨0xc3, 0, 0, 0, 1, [1, 2, 3, 4, 5, 6, 7, 8], [], [9, 9], 0, 1⟩
 
 /-! ## A flow family through `handlePkt`: several QUIC connections on one 4-tuple, failing dials -/
 
-/-- Every datagram that is shaped like a QUIC Initial carries a destination connection id the
-session pool can key a session by (1..20 bytes — what RFC 9000 lets a client send is 8..20). -/
-def CacheableDcids (xs : List Dg) : Prop := ∀ x ∈ xs, isLikelyQuic x.data = true → dcidKey x.data ≠ []
-
-/-- The full claim: for EVERY history of one flow family, connection by connection, what was handed
-on followed by what is still held is what came in.  It does NOT hold of the code as it is: a session
-whose Initial has a DCID of length 0 (or more than 20) is keyed by the bare address pair, is not a
-member of the flow family, and `TakeFlowFamilyBufferedPackets` never releases what it holds
-(finding `c06-udp-withheld-stranded-uncacheable-dcid`, directed scenario in the harness). -/
-def udp_family_per_connection_full : Prop :=
-  ∀ (xs : List Dg) (k : Bytes),
-    onKey k (released (Fam.run {} xs).1 ++ (Fam.run {} xs).2.held) = onKey k (xs.map Dg.data)
-
 /-- **Datagram fidelity and order per connection, every interleaving, with faults.** Any number of
-QUIC connections (sessions keyed by DCID) opening on one 4-tuple, their datagrams interleaved in any
-way with each other and with datagrams that are not QUIC Initials, retransmissions, undecryptable
-packets, whatever the sniffer answers, whichever dials fail, with the decrypt-failure and no-SNI
-counters, the bypass window, the negative DCID cache and the reset of a domain-less endpoint by
-another connection's Initial all in play: for every connection key `k`, the datagrams of `k` that
-`handlePkt` handed on (written to the endpoint, or given to a dial that failed), in that order,
-followed by the ones its session still holds, are exactly the datagrams of `k` that came in, in
-ingress order.  Nothing is duplicated, altered, overtaken within its connection, or silently lost.
-`_partial`: for histories whose Initial-shaped datagrams carry a cacheable DCID (see `_full`). -/
-theorem udp_family_per_connection_partial (xs : List Dg) (hc : CacheableDcids xs) (k : Bytes) :
+QUIC connections (sessions keyed by DCID; an Initial whose DCID has length 0 or more than 20 shares the
+session keyed by the bare address pair) opening on one 4-tuple, their datagrams interleaved in any way
+with each other and with datagrams that are not QUIC Initials, retransmissions, undecryptable packets,
+whatever the sniffer answers, whichever dials fail, with the decrypt-failure and no-SNI counters, the
+bypass window, the negative DCID cache and the reset of a domain-less endpoint by another connection's
+Initial all in play: for every connection key `k`, the datagrams of `k` that `handlePkt` handed on
+(written to the endpoint, or given to a dial that failed), in that order, followed by the ones its
+session still holds, are exactly the datagrams of `k` that came in, in ingress order.  Nothing is
+duplicated, altered, overtaken within its connection, or silently lost.  (Full strength since fix
+629a74d; before it the statement needed "every Initial has a cacheable DCID".) -/
+theorem udp_family_per_connection (xs : List Dg) (k : Bytes) :
     onKey k (released (Fam.run {} xs).1 ++ (Fam.run {} xs).2.held) = onKey k (xs.map Dg.data) := by
-  obtain ⟨hI, h⟩ := run_spec xs {} inv_init hc
+  obtain ⟨hI, h⟩ := run_spec xs {} inv_init
   rw [onKey_append, Fam.held, onKey_held _ hI.1.keyed, h k]
   rfl
 
 /-- **Nothing is held behind an endpoint.** In every reachable state, once the flow has its
 `UdpEndpoint` (from then on datagrams are written directly and no sniff runs), no session holds a
 datagram — which is why the paths that tear sessions down (`RemoveFlowFamilySessions`) lose nothing. -/
-theorem udp_family_nothing_held_behind_endpoint_partial (xs : List Dg) (hc : CacheableDcids xs)
+theorem udp_family_nothing_held_behind_endpoint (xs : List Dg)
     (h : (Fam.run {} xs).2.ue.isSome = true) : (Fam.run {} xs).2.held = [] :=
-  held_of_allEmpty _ ((run_spec xs {} inv_init hc).1.2 h)
+  held_of_allEmpty _ ((run_spec xs {} inv_init).1.2 h)
 
 /-- **A release is total.** Whenever a `handlePkt` call hands anything on — the current datagram
 alone, or with what a session had buffered — it hands on everything every session of the family
 holds: after such a call nothing is held.  So a datagram stays withheld only while every later
 datagram of the family was itself answered "need more". -/
-theorem udp_family_release_is_total_partial (xs : List Dg) (x : Dg) (hc : CacheableDcids (xs ++ [x]))
+theorem udp_family_release_is_total (xs : List Dg) (x : Dg)
     (h : ((Fam.run {} xs).2.step x).2.written ++ ((Fam.run {} xs).2.step x).2.dropped ≠ []) :
     ((Fam.run {} xs).2.step x).1.held = [] :=
-  held_of_allEmpty _ ((run_last_step xs x hc).2.2 h)
+  held_of_allEmpty _ ((run_last_step xs x).2.2 h)
 
 /-- two connections (DCIDs `09` and `08`), each with an Initial the sniffer asks more for (AEAD answers a
 two-byte CRYPTO stream), then a datagram that is not a QUIC Initial: both are held, then everything is
@@ -473,21 +461,19 @@ def exA : Dg := { data := [0xc0, 0, 0, 0, 1, 1, 9, 0, 0, 7, 1, 2, 3, 4, 5, 6, 7]
 def exB : Dg := { data := [0xc0, 0, 0, 0, 1, 1, 8, 0, 0, 7, 7, 6, 5, 4, 3, 2, 1], seals := [⟨0, 10, 17, [8], [6, 0, 2, 1, 0]⟩] }
 def exJ : Dg := { data := [0x40, 1, 2, 3, 4, 5, 6] }
 
-example : CacheableDcids [exA, exB, exJ] ∧
+example :
     (Fam.run {} [exA, exB]).2.held = [exB.data, exA.data] ∧ released (Fam.run {} [exA, exB]).1 = [] ∧
     released (Fam.run {} [exA, exB, exJ]).1 = [exB.data, exA.data, exJ.data] ∧ (Fam.run {} [exA, exB, exJ]).2.held = [] ∧
     (Fam.run {} [exA, exB, exJ]).2.ue.isSome = true ∧
     ((Fam.run {} [exA, exB, { exJ with dialFails := true }]).1.map StepOut.dropped) = [[], [], [exB.data, exA.data, exJ.data]] := by
-  refine ⟨?_, by decide, by decide, by decide, by decide, by decide, by decide⟩
-  intro x hx
-  simp only [List.mem_cons, List.not_mem_nil, or_false] at hx
-  rcases hx with rfl | rfl | rfl <;> decide
+  refine ⟨by decide, by decide, by decide, by decide, by decide, by decide⟩
 
-/-- the `_full` statement fails on the model exactly where the code fails: a withheld Initial with a
-zero-length DCID is not released by the datagram that follows it -/
+/-- the regression of fix 629a74d: a withheld Initial with a zero-length DCID (session keyed by the bare
+address pair) is released by the datagram that follows it -/
 def exZ : Dg := { data := [0xc0, 0, 0, 0, 1, 0, 0, 0, 8, 1, 2, 3, 4, 5, 6, 7, 8], seals := [⟨0, 9, 17, [], [6, 0, 2, 1, 0]⟩] }
 
-example : dcidKey exZ.data = [] ∧ released (Fam.run {} [exZ, exJ]).1 = [exJ.data] ∧ (Fam.run {} [exZ, exJ]).2.held = [exZ.data] := by
+example : dcidKey exZ.data = [] ∧ (Fam.run {} [exZ]).2.held = [exZ.data] ∧
+    released (Fam.run {} [exZ, exJ]).1 = [exZ.data, exJ.data] ∧ (Fam.run {} [exZ, exJ]).2.held = [] := by
   decide
 
 end DaeVerif.C06.Props
